@@ -393,6 +393,27 @@ class Exec:
                 val = ty     # concrete python value / Lam given by the contract
             st.env[nm] = val
             args[nm] = val.t if isinstance(val, V) else (self.read(val) if isinstance(val, C) else val)
+        va = getattr(k, 'vararg', None)
+        if a.vararg is not None:
+            if va is None:
+                raise Unsupported('*%s of %s needs a declared arity (vararg=)' % (a.vararg.arg, self.qual))
+            vals = []
+            for i, ty in enumerate(va):
+                t = z3.Const('arg_%s_%d' % (a.vararg.arg, i), ty.sort())
+                vals.append(self.wrap(t, ty))
+                self.inputs['%s_%d' % (a.vararg.arg, i)] = t
+                args['%s_%d' % (a.vararg.arg, i)] = t
+            st.env[a.vararg.arg] = tuple(vals)
+        if a.kwarg is not None:
+            st.env[a.kwarg.arg] = {}
+        for nm, ty in (getattr(k, 'free', {}) or {}).items():
+            if isinstance(ty, Ty):
+                t = z3.Const('free_' + nm, ty.sort())
+                st.env[nm] = self.wrap(t, ty)
+                self.inputs[nm] = t
+                args[nm] = t
+            else:
+                st.env[nm] = ty
         self.args = args
         self.old = st.snap()
         c = SpecCtx(self, args, self.old, self.old)
@@ -821,7 +842,9 @@ class Exec:
                 self.set_global(gk, v, line)
                 return
             base = self.unwrap(base, line)
-            if isinstance(base, V) and isinstance(base.ty, Ref):
+            if isinstance(base, V) and isinstance(base.ty, Ref) and (base.ty.cls, tgt.attr) in self.world.properties:
+                self.world.call_function(self, self.world.properties[(base.ty.cls, tgt.attr)][1], [base, v], {}, tgt)
+            elif isinstance(base, V) and isinstance(base.ty, Ref):
                 self.set_field(base, self.mangle(tgt.attr), v, line)
             else:
                 raise Unsupported('attribute assignment on %r' % (base,))
@@ -952,6 +975,8 @@ class Exec:
             return Dotted(path)
         if isinstance(base, V) and isinstance(base.ty, Opt):
             base = self.unwrap(base, line)
+        if isinstance(base, V) and isinstance(base.ty, Ref) and (base.ty.cls, attr) in self.world.properties:
+            return self.world.call_function(self, self.world.properties[(base.ty.cls, attr)][0], [base], {}, _Line(line))
         if isinstance(base, V) and isinstance(base.ty, Ref):
             attr = self.mangle(attr)
             fk = self.field_key(base, attr)
@@ -1636,9 +1661,12 @@ class Exec:
                 if isinstance(n.func, ast.Attribute) and isinstance(n.func.value, ast.Name) and n.func.attr in self.MUTATORS:
                     names.add(n.func.value.id)
                 for a in list(n.args) + [k.value for k in n.keywords]:
-                    for m in ast.walk(a):
-                        if isinstance(m, ast.Name):
-                            names.add(m.id)
+                    if isinstance(a, ast.Starred):
+                        a = a.value
+                    if isinstance(a, ast.Name):
+                        names.add(a.id)
+                    elif isinstance(a, (ast.Tuple, ast.List)):
+                        names.update(m.id for m in a.elts if isinstance(m, ast.Name))
             elif isinstance(n, (ast.Subscript,)) and isinstance(n.ctx, (ast.Store, ast.Del)) and isinstance(n.value, ast.Name):
                 names.add(n.value.id)
             elif isinstance(n, ast.AugAssign) and isinstance(n.target, ast.Name):
@@ -1889,10 +1917,19 @@ class Exec:
     # ---- applying a callee's contract
     def apply_contract(self, kc, qual, argvals, line):
         """modular call: assert requires, havoc modifies, assume ensures"""
-        params = kc.param_names
+        params = list(kc.param_names)
+        ptypes = dict(kc.params)
+        va = getattr(kc, 'vararg', None)
+        if va is not None:
+            vname = kc.load_ast().args.vararg.arg
+            if len(argvals) != len(params) + len(va):
+                raise Unsupported('%s is specified for %d variadic arguments, called with %d' % (qual, len(va), len(argvals) - len(params)))
+            for i, ty in enumerate(va):
+                params.append('%s_%d' % (vname, i))
+                ptypes[params[-1]] = ty
         args = {}
         for nm, v in zip(params, argvals):
-            ty = kc.params[nm]
+            ty = ptypes[nm]
             if isinstance(ty, Ty):
                 args[nm] = self.to_z3(v, ty)
             else:
@@ -1937,6 +1974,11 @@ class Exec:
                 self.st.qh.append(QHyp(used, f, label))
                 return
         self.assume(f)
+
+
+class _Line:
+    def __init__(self, line):
+        self.lineno = line
 
 
 def _loop_head(n):
